@@ -5,8 +5,9 @@ interpreter for the generated Lua, lxml walk by ID/ID-REF for FIBEX, csv and jso
 number equals the matrix's, (b) the recorded position read with the tool's convention (transcribed below, printed
 into the evidence) selects exactly the signal's payload bits: compared with layouts.bigpos and, on random payloads,
 with Frame.decode(payload)[name].raw_value.
-TIE: the numbers parsed from real writer output = model/Exports.v *_emit on the same signals; the Python
-transcription of each tool convention = model/Exports.v *_positions / ws_read (cmd 1901-1921)."""
+TIE: the numbers parsed from real writer output = model/Exports.v *_emit on the same signals (incl. the FIBEX
+multiplexer segments, seg_range); the Python transcription of each tool convention = model/Exports.v
+*_positions / ws_read (cmd 1901-1921)."""
 import ast
 import contextlib
 import csv as csvmod
@@ -377,6 +378,8 @@ def parse_fibex(data):
                             r = signal_instance(si, base)
                             r["mux"] = int(code[0].text) if code else None
                             r["segment"] = (base, seglen)
+                            r["part"] = part[3:]
+                            r["pdu_bytes"] = int(one(sub, "fx:BYTE-LENGTH").text)
                             add(r)
         else:
             for si in X(pdu, "fx:SIGNAL-INSTANCES/fx:SIGNAL-INSTANCE"):
@@ -485,6 +488,19 @@ def run(chk):
                 "non-trivial = the signal crosses a byte boundary, or is Motorola, or is signed with its top bit set in a payload, "
                 "or the frame is longer than 8 bytes; distinct by (artefact, options, frame length, signal placement and type)")
     chk.assumptions += ASSUMPTIONS
+    chk.notes += [
+        "recorded per artefact (everything listed is compared with the matrix): scapy: id, extended flag, start, size, byte order, sign/float, "
+        "scaling, offset, unit, multiplexer condition; wireshark: id number, range (byte order), offset, length, sign probe + constant, float field "
+        "type, multiplexer read and condition; fibex: id, EXTENDED-ADDRESSING, FRAME and PDU BYTE-LENGTH, BIT-POSITION, byte order, BIT-LENGTH, "
+        "BASE-DATA-TYPE, rational coefficients, SWITCH, SEGMENT-POSITIONs, SWITCH-CODE; csv: id + extended marker, byte/bit, length, byte order, sign, "
+        "increment (factor), mode (multiplexer) text; canard: id, key, bit_length, factor, offset. Frame length is not recorded by scapy, wireshark, "
+        "csv and canard; offset is not recorded by wireshark and csv; byte order and sign are not recorded by canard.",
+        "envelope: id numbers unique across standard/extended frames (wireshark, csv and canard key frames by the number alone; csv.dump keeps one frame "
+        "per number); Canard: Motorola signals crossing a byte boundary and signals sharing a start bit cannot be carried by the format and are counted "
+        "under 'canard:outside-format', not alarmed; Scapy itself reads 8 payload bytes and 32-bit floats only (counted under 'scapy:observation').",
+        "observed, outside this property: fibex.dump reuses XML IDs (PDU_<frame> on PDU-TRIGGERING and PDU, input_included_pdu_<frame> once per receiving "
+        "ECU) and writes dangling SIGNAL-REFs in FUNCTION output ports; fibex.load cannot read fibex.dump's output (KeyError in the <<ECU selector).",
+    ]
     ok = chk.build_and_audit()
     cm = core.import_impl()
     import canmatrix.formats
@@ -814,6 +830,10 @@ def run(chk):
                                       describe(fr, mux), spec_msf(mux), pos)
                     register("fibex", "switch", fr, mux, False)
                     add(1907, [sig_group(mux)], [[sw["pos"], int(sw["hilo"]), sw["size"]]], dict(fibex_switch=describe(fr, mux)))
+            if mux is not None:
+                for part, base, seglen, _ in a["segments"]:
+                    members = [s for s in fr.signals if s is not mux and ((s.mux_val is not None) == (part == "DYNAMIC-PART"))]
+                    add(1909, [sig_group(s) for s in members], [[base, base + seglen]], dict(fibex_segment=(fr.name, part)))
             for s in fr.signals:
                 if s is mux:
                     continue
@@ -852,9 +872,17 @@ def run(chk):
                         v = bits_at(p, fibex_positions(r["pos"], r["size"], r["hilo"]))
                         return ("f", v) if t[0] == 2 else (signed_of(v, r["size"]) if t[0] == 1 else v)
                     nt = check_value("fibex", fr, s, getter, "value read with the FIBEX convention differs from Frame.decode")
+                if "segment" in r:
+                    # the signal must lie inside the PDU it is placed in and inside the segment that PDU is mapped to
+                    base, seglen = r["segment"]
+                    relpos = fibex_positions(r["rel"], r["size"], r["hilo"])
+                    if min(relpos) < 0 or max(relpos) >= 8 * r["pdu_bytes"] or max(relpos) >= seglen or base % 8 or seglen % 8:
+                        chk.violation("fibex-mux-pdu-range", "a signal instance leaves the switched/static PDU or its segment",
+                                      dict(describe(fr, s), segment=r["segment"], pdu_bytes=r["pdu_bytes"], bit_position=r["rel"]))
                 register("fibex", "", fr, s, nt)
                 if t is not None:
-                    add(1903, [sig_group(s)], [[r["rel"], int(r["hilo"]), r["size"], t[0], t[1]]], dict(fibex=describe(fr, s)))
+                    add(1908, [[r["segment"][0] if "segment" in r else 0], sig_group(s)], [[r["rel"], int(r["hilo"]), r["size"], t[0], t[1]]],
+                        dict(fibex=describe(fr, s), segment=r.get("segment")))
                 add(1913, [[r["pos"], int(r["hilo"]), r["size"]]], [pos], dict(fibex_positions=(r["pos"], r["size"], r["hilo"])))
         if k < 1:
             chk.sample(dict(artefact="fibex", excerpt=re.findall(r"<fx:SIGNAL-INSTANCE.*?</fx:SIGNAL-INSTANCE>", data.decode("utf8"), re.S)[:1]))
